@@ -84,6 +84,7 @@ pub fn run() -> i32 {
     );
     quiet_panics();
     let th = rep.thorough();
+    let t_start = std::time::Instant::now();
     let dir = scratch_dir("c19");
     let mut rng = Rng::new(rep.seed);
     let evals = AtomicU64::new(0);
@@ -175,6 +176,7 @@ pub fn run() -> i32 {
         });
     }
     rep.set("reader_level_presentations", json!(evals.load(Ordering::Relaxed)));
+    rep.set("reader_level_wall_s", json!(t_start.elapsed().as_secs_f64()));
     // ================= CLI level =================
     let ragc = cli::ragc_bin(false);
     let cli_evals = AtomicU64::new(0);
@@ -214,8 +216,10 @@ pub fn run() -> i32 {
                 }
                 let mut a: Vec<&str> = vec!["create", "-o", "out.agc", "-k", "11", "-s", "40", "-m", "15", "-t", "2", "-v", "0"];
                 for f in &inputs { a.push(f); }
-                // byte-identity comparisons run with production compression levels (no cap)
-                let o = cli::run(&ragc, &a, &vdir, &[], 180, None);
+                // byte identity is a statement about what reaches the compressor, so it is level-independent: the first
+                // set runs with production compression levels, the others (quick tier) with the level cap
+                let capped: Vec<(&str, &str)> = if si == 0 || th { vec![] } else { vec![("RAGC_VERIF_ZSTD_CAP", "3")] };
+                let o = cli::run(&ragc, &a, &vdir, &capped, 180, None);
                 cli_evals.fetch_add(1, Ordering::Relaxed);
                 if !o.ok() {
                     rep.violation(&format!("C19:create_failed:{name}"), "create failed for a presentation of valid input", json!({"set": si, "presentation": name, "exit": o.code, "stderr": o.stderr.chars().take(300).collect::<String>()}));
@@ -287,7 +291,7 @@ pub fn run() -> i32 {
                 let f2 = format!("other{ext}");
                 std::fs::write(vdir.join(&f1), if gzip { gz(&t) } else { t.clone() }).unwrap();
                 std::fs::write(vdir.join(&f2), if gzip { gz(&t2) } else { t2.clone() }).unwrap();
-                let o = cli::run(&ragc, &["create", "-o", "o.agc", "-k", "11", "-s", "40", "-m", "15", "-t", "2", "-v", "0", &f1, &f2], &vdir, &[], 180, None);
+                let o = cli::run(&ragc, &["create", "-o", "o.agc", "-k", "11", "-s", "40", "-m", "15", "-t", "2", "-v", "0", &f1, &f2], &vdir, &[("RAGC_VERIF_ZSTD_CAP", "3")], 180, None);
                 cli_evals.fetch_add(1, Ordering::Relaxed);
                 if !o.ok() { rep.violation("C19:create_failed:file_name", "create failed", json!({"file": f1})); continue; }
                 let l = cli::run(&ragc, &["listset", "o.agc"], &vdir, &[], 60, None);
@@ -315,6 +319,7 @@ pub fn run() -> i32 {
     rep.sample(json!({"set": 0, "presentation": "gzip, two members split at byte 17 (inside the first header), width 7"}));
     rep.sample(json!({"set": 1, "presentation": "plain, width 1, CRLF, alternating case"}));
     rep.set_exhaustive(true);
-    rep.assume("sample sets are small (<= 3 samples, <= ~700 bytes of FASTA each), contigs fewer than pack cardinality for the byte-identity part");
+    rep.assume("quick tier: only the first sample set is compressed at production zstd levels, the others with the level-cap hook (byte identity between presentations does not depend on the level)");
+    rep.assume("sample sets are small (<= 5 samples, <= ~700 bytes of FASTA each), contigs fewer than pack cardinality for the byte-identity part");
     rep.finish()
 }
